@@ -110,4 +110,791 @@ theorem audiences_per_op_complete (hosts : List Host) (op : Op) (a : Aud) (h : I
     | (right; refine ⟨hh, hm, ?_⟩; rcases ha with rfl | rfl <;> simp [route, s])
     | (refine ⟨hh, hm, ?_⟩; rcases ha with rfl | rfl <;> simp [route, s])
 
+/-! ### what an accepted token satisfies -/
+
+/-- the validity window as the code tests it (`now` in ns, claims in s, one minute of leeway);
+    a claim that is absent is not tested -/
+def Window (now : Int) (t : Tok) : Prop :=
+  (∀ nbf, t.nbf = some nbf → nbf * ns - leeway ≤ now) ∧
+  (∀ exp, t.exp = some exp → now ≤ exp * ns + leeway) ∧
+  (∀ iat, t.iat = some iat → iat * ns - leeway ≤ now)
+
+/-- some audience of the token matches (equal, or equal after `stripPort`) some element of the
+    list the provisioner holds *for this operation* -/
+def AudOk (cfg : Config) (p : Prov) (op : Op) (t : Tok) : Prop :=
+  ∃ a ∈ t.aud, ∃ b ∈ opAuds (getAudiences cfg.hosts) op,
+    (b.render p.audFrag).1 = a.raw ∨ a.stripped = (b.render p.audFrag).2
+
+/-- issuer, window, audience for the operation, non-empty subject: the tail shared by the
+    provisioners whose tokens are minted with a key or certificate registered at the CA -/
+def ClaimsOk (cfg : Config) (p : Prov) (now : Int) (op : Op) (t : Tok) : Prop :=
+  (p.name = [] ∨ t.iss = p.name) ∧ Window now t ∧ AudOk cfg p op t ∧ t.sub ≠ []
+
+def SshTok (p : Prov) (t : Tok) : Prop := p.sshEnabled = true ∧ t.hasSSH = true ∧ t.sshTypeOk = true
+
+/-- the SSH certificate of an SSHPOP token is inside its validity at `now` (revoke, rekey) -/
+def CertNow (pc : Pop) (now : Int) : Prop :=
+  pc.after ≤ maxInt64 ∧ (pc.after : Int) ≤ now / ns ∧
+    (pc.before = certForever ∨ (pc.before ≤ maxInt64 ∧ now / ns < (pc.before : Int)))
+
+/-- … or, for renew, possibly past its end when the provisioner allows renewal after expiry -/
+def CertRenew (pc : Pop) (now : Int) (lenient : Bool) : Prop :=
+  pc.after ≤ maxInt64 ∧ (pc.after : Int) ≤ now / ns ∧ pc.before ≤ maxInt64 ∧
+    (now / ns < (pc.before : Int) ∨ lenient = true)
+
+/-- **What each provisioner type requires of an accepted token, as coded.** -/
+def Accepts (cfg : Config) (p : Prov) (c : Cr) (now : Int) (op : Op) (t : Tok) : Prop :=
+  match p.ty with
+  | .jwk =>
+      c.sig = true ∧ ClaimsOk cfg p now op t ∧
+      (op = .sign ∨ op = .revoke ∨ op = .sshRevoke ∨ (op = .sshSign ∧ SshTok p t))
+  | .x5c =>
+      c.chain = true ∧ c.digSig = true ∧ c.sig = true ∧ ClaimsOk cfg p now op t ∧
+      (op = .sign ∨ op = .revoke ∨ (op = .sshSign ∧ SshTok p t))
+  | .sshpop =>
+      ∃ pc, t.pop = some pc ∧ c.chain = true ∧ c.sig = true ∧ ClaimsOk cfg p now op t ∧
+      ((op = .sshRevoke ∧ CertNow pc now ∧ pc.serialIsSub = true) ∨
+       (op = .sshRekey ∧ CertNow pc now ∧ pc.host = true) ∨
+       (op = .sshRenew ∧ pc.host = true ∧ p.disableRenewal = false ∧ CertRenew pc now p.renewAfterExpiry))
+  | .nebula =>
+      c.chain = true ∧ c.sig = true ∧ ClaimsOk cfg p now op t ∧
+      (op = .sign ∨ op = .revoke ∨ ((op = .sshSign ∨ op = .sshRevoke) ∧ p.sshEnabled = true))
+  | .oidc =>
+      -- issuer of the discovery document, audience = the client id (string equality), azp;
+      -- **no subject requirement** for X.509 sign and for revoke
+      c.sig = true ∧ (p.oidcIssuer = [] ∨ t.iss = p.oidcIssuer) ∧ Window now t ∧
+      (∃ a ∈ t.aud, a.raw = p.clientId) ∧ (t.azp = [] ∨ t.azp = p.clientId) ∧
+      c.domainOk = true ∧ c.groupOk = true ∧
+      (op = .sign ∨ ((op = .revoke ∨ op = .sshRevoke) ∧ c.admin = true) ∨
+       (op = .sshSign ∧ p.sshEnabled = true ∧ t.sub ≠ [] ∧ (t.email = [] ∨ c.identOk = true)))
+  | .k8ssa =>
+      -- **no audience requirement, hence none per operation**: one token serves sign, ssh-sign and revoke
+      c.sig = true ∧ t.iss = k8sIssuer ∧ Window now t ∧ t.sub ≠ [] ∧
+      (op = .sign ∨ op = .revoke ∨ (op = .sshSign ∧ p.sshEnabled = true))
+  | .acme => op = .sign ∨ op = .revoke      -- **nothing about the token**
+  | .scep => op = .sign                     -- **nothing about the token**
+
+theorem audMatch_true (as : List TAud) (bs : List (Str × Str)) (h : audMatch as bs = true) :
+    ∃ a ∈ as, ∃ b ∈ bs, b.1 = a.raw ∨ a.stripped = b.2 := by
+  unfold audMatch at h
+  simp only [Bool.and_eq_true, List.any_eq_true, Bool.or_eq_true, beq_iff_eq] at h
+  obtain ⟨_, b, hb, a, ha, hab⟩ := h
+  exact ⟨a, ha, b, hb, hab⟩
+
+theorem validate_ok (e : Str) (now : Int) (t : Tok) (u : Unit) (h : validate e now t = .ok u) :
+    (e = [] ∨ t.iss = e) ∧ Window now t := by
+  unfold validate at h
+  simp only [bind_ok, need_ok] at h
+  obtain ⟨_, h1, _, h2, _, h3, h4⟩ := h
+  refine ⟨?_, ?_, ?_, ?_⟩
+  · simp at h1; rcases h1 with h1 | h1
+    · left; exact h1
+    · right; exact h1.symm
+  · intro nbf hn; simp [hn] at h2; omega
+  · intro exp hn; simp [hn] at h3; omega
+  · intro iat hn; simp [hn] at h4; omega
+
+theorem claimsAudSub_ok (cfg : Config) (p : Prov) (now : Int) (op : Op) (t : Tok) (u : Unit)
+    (h : claimsAudSub cfg p now op t = .ok u) :
+    (p.expIssuer = [] ∨ t.iss = p.expIssuer) ∧ Window now t ∧ AudOk cfg p op t ∧ t.sub ≠ [] := by
+  unfold claimsAudSub at h
+  simp only [bind_ok, need_ok] at h
+  obtain ⟨_, h1, _, h2, h3⟩ := h
+  obtain ⟨hi, hw⟩ := validate_ok _ _ _ _ h1
+  refine ⟨hi, hw, ?_, ?_⟩
+  · obtain ⟨a, ha, b, hb, hab⟩ := audMatch_true _ _ h2
+    unfold provAuds at hb
+    simp only [List.mem_map] at hb
+    obtain ⟨b', hb', rfl⟩ := hb
+    exact ⟨a, ha, b', hb', hab⟩
+  · intro hs; simp [hs] at h3
+
+theorem sshOptsTail_ok (t : Tok) (u : Unit) (h : sshOptsTail t = .ok u) : t.hasSSH = true ∧ t.sshTypeOk = true := by
+  unfold sshOptsTail at h
+  simp only [bind_ok, need_ok] at h
+  obtain ⟨_, h1, h2⟩ := h
+  exact ⟨h1, h2⟩
+
+theorem certWindow_ok (pc : Pop) (now : Int) (l : Bool) (u : Unit) (h : certWindow pc now l = .ok u) :
+    CertRenew pc now l := by
+  unfold certWindow at h
+  simp only at h
+  split at h
+  · simp at h
+  · split at h
+    · simp at h
+    · split at h
+      · simp at h
+      · split at h
+        · simp at h
+        · rename_i h1 h2 h3 h4
+          refine ⟨by omega, by omega, by omega, ?_⟩
+          have hne : pc.before ≠ certForever := by
+            intro he; rw [he] at h3; simp [certForever, maxInt64] at h3
+          simp only [Bool.and_eq_true, bne_iff_ne, ne_eq, decide_eq_true_eq, Bool.not_eq_true', not_and,
+            Bool.not_eq_false] at h4
+          by_cases hlt : now / ns < (pc.before : Int)
+          · left; exact hlt
+          · right
+            have := h4 ⟨hne, by omega⟩
+            simpa using this
+
+theorem certWindowTok_ok (pc : Pop) (now : Int) (u : Unit) (h : certWindowTok pc now = .ok u) :
+    CertNow pc now := by
+  unfold certWindowTok at h
+  simp only at h
+  split at h
+  · simp at h
+  · split at h
+    · simp at h
+    · rename_i h1 h2
+      simp only [Bool.or_eq_true, decide_eq_true_eq, not_or, Nat.not_lt, Int.not_lt] at h1
+      refine ⟨h1.1, h1.2, ?_⟩
+      by_cases hf : pc.before = certForever
+      · exact .inl hf
+      · right
+        simp only [Bool.and_eq_true, bne_iff_ne, ne_eq, Bool.or_eq_true, decide_eq_true_eq, not_and, not_or,
+          Nat.not_lt, Int.not_le] at h2
+        have := h2 hf
+        exact ⟨this.1, by omega⟩
+
+theorem claims_of (cfg : Config) (p : Prov) (now : Int) (op : Op) (t : Tok) (u : Unit)
+    (hn : p.expIssuer = p.name) (h : claimsAudSub cfg p now op t = .ok u) : ClaimsOk cfg p now op t := by
+  have := claimsAudSub_ok _ _ _ _ _ _ h
+  rw [hn] at this
+  exact this
+
+theorem jwkOp_ok (cfg : Config) (p : Prov) (c : Cr) (now : Int) (op : Op) (t : Tok) (u : Unit)
+    (hty : p.ty = .jwk) (h : jwkOp cfg p c now op t = .ok u) :
+    c.sig = true ∧ ClaimsOk cfg p now op t ∧
+      (op = .sign ∨ op = .revoke ∨ op = .sshRevoke ∨ (op = .sshSign ∧ SshTok p t)) := by
+  have hn : p.expIssuer = p.name := by simp [Prov.expIssuer, hty]
+  cases op <;> simp only [jwkOp, jwkTok, bind_ok, need_ok] at h
+  · obtain ⟨_, h1, h2⟩ := h; exact ⟨h1, claims_of _ _ _ _ _ _ hn h2, by simp⟩
+  · obtain ⟨_, h0, _, ⟨_, h1, h2⟩, h3⟩ := h
+    have := sshOptsTail_ok _ _ h3
+    exact ⟨h1, claims_of _ _ _ _ _ _ hn h2, by simp [SshTok, h0, this]⟩
+  · exact absurd h (baseReject_ne _)
+  · exact absurd h (baseReject_ne _)
+  · obtain ⟨_, h1, h2⟩ := h; exact ⟨h1, claims_of _ _ _ _ _ _ hn h2, by simp⟩
+  · obtain ⟨_, h1, h2⟩ := h; exact ⟨h1, claims_of _ _ _ _ _ _ hn h2, by simp⟩
+
+theorem x5cOp_ok (cfg : Config) (p : Prov) (c : Cr) (now : Int) (op : Op) (t : Tok) (u : Unit)
+    (hty : p.ty = .x5c) (h : x5cOp cfg p c now op t = .ok u) :
+    c.chain = true ∧ c.digSig = true ∧ c.sig = true ∧ ClaimsOk cfg p now op t ∧
+      (op = .sign ∨ op = .revoke ∨ (op = .sshSign ∧ SshTok p t)) := by
+  have hn : p.expIssuer = p.name := by simp [Prov.expIssuer, hty]
+  cases op <;> simp only [x5cOp, x5cTok, bind_ok, need_ok] at h
+  · obtain ⟨_, h0, _, h1, _, h2, h3⟩ := h; exact ⟨h0, h1, h2, claims_of _ _ _ _ _ _ hn h3, by simp⟩
+  · obtain ⟨_, hs, _, ⟨_, h0, _, h1, _, h2, h3⟩, h4⟩ := h
+    have := sshOptsTail_ok _ _ h4
+    exact ⟨h0, h1, h2, claims_of _ _ _ _ _ _ hn h3, by simp [SshTok, hs, this]⟩
+  · exact absurd h (baseReject_ne _)
+  · exact absurd h (baseReject_ne _)
+  · obtain ⟨_, h0, _, h1, _, h2, h3⟩ := h; exact ⟨h0, h1, h2, claims_of _ _ _ _ _ _ hn h3, by simp⟩
+  · exact absurd h (baseReject_ne _)
+
+theorem sshpopTok_ok (cfg : Config) (p : Prov) (c : Cr) (now : Int) (op : Op) (t : Tok) (cv : Bool) (pc : Pop)
+    (hty : p.ty = .sshpop) (h : sshpopTok cfg p c now op t cv = .ok pc) :
+    t.pop = some pc ∧ c.chain = true ∧ c.sig = true ∧ ClaimsOk cfg p now op t ∧ (cv = true → CertNow pc now) := by
+  have hn : p.expIssuer = p.name := by simp [Prov.expIssuer, hty]
+  unfold sshpopTok at h
+  split at h
+  · simp at h
+  · rename_i pc' hp
+    cases cv <;> simp only [bind_ok, need_ok, pure_ok, if_true, if_false, Bool.false_eq_true] at h
+    · obtain ⟨_, h1, _, h2, _, h3, rfl⟩ := h
+      exact ⟨hp, h1, h2, claims_of _ _ _ _ _ _ hn h3, by simp⟩
+    · obtain ⟨_, h0, _, h1, _, h2, _, h3, rfl⟩ := h
+      exact ⟨hp, h1, h2, claims_of _ _ _ _ _ _ hn h3, fun _ => certWindowTok_ok _ _ _ h0⟩
+
+theorem sshpopOp_ok (cfg : Config) (p : Prov) (c : Cr) (now : Int) (op : Op) (t : Tok) (u : Unit)
+    (hty : p.ty = .sshpop) (h : sshpopOp cfg p c now op t = .ok u) :
+    ∃ pc, t.pop = some pc ∧ c.chain = true ∧ c.sig = true ∧ ClaimsOk cfg p now op t ∧
+      ((op = .sshRevoke ∧ CertNow pc now ∧ pc.serialIsSub = true) ∨
+       (op = .sshRekey ∧ CertNow pc now ∧ pc.host = true) ∨
+       (op = .sshRenew ∧ pc.host = true ∧ p.disableRenewal = false ∧ CertRenew pc now p.renewAfterExpiry)) := by
+  cases op <;> simp only [sshpopOp, bind_ok, need_ok] at h
+  · exact absurd h (baseReject_ne _)
+  · exact absurd h (baseReject_ne _)
+  · obtain ⟨pc, h0, _, h1, _, h2, h3⟩ := h
+    obtain ⟨a, b, c', d, _⟩ := sshpopTok_ok _ _ _ _ _ _ _ _ hty h0
+    refine ⟨pc, a, b, c', d, .inr (.inr ⟨rfl, h1, ?_, certWindow_ok _ _ _ _ h3⟩)⟩
+    simpa using h2
+  · obtain ⟨pc, h0, h1⟩ := h
+    obtain ⟨a, b, c', d, e⟩ := sshpopTok_ok _ _ _ _ _ _ _ _ hty h0
+    exact ⟨pc, a, b, c', d, .inr (.inl ⟨rfl, e rfl, h1⟩)⟩
+  · exact absurd h (baseReject_ne _)
+  · obtain ⟨pc, h0, h1⟩ := h
+    obtain ⟨a, b, c', d, e⟩ := sshpopTok_ok _ _ _ _ _ _ _ _ hty h0
+    exact ⟨pc, a, b, c', d, .inl ⟨rfl, e rfl, h1⟩⟩
+
+theorem nebulaOp_ok (cfg : Config) (p : Prov) (c : Cr) (now : Int) (op : Op) (t : Tok) (u : Unit)
+    (hty : p.ty = .nebula) (h : nebulaOp cfg p c now op t = .ok u) :
+    c.chain = true ∧ c.sig = true ∧ ClaimsOk cfg p now op t ∧
+      (op = .sign ∨ op = .revoke ∨ ((op = .sshSign ∨ op = .sshRevoke) ∧ p.sshEnabled = true)) := by
+  have hn : p.expIssuer = p.name := by simp [Prov.expIssuer, hty]
+  cases op <;> simp only [nebulaOp, nebulaTok, bind_ok, need_ok] at h
+  · obtain ⟨_, h0, _, h1, h2⟩ := h; exact ⟨h0, h1, claims_of _ _ _ _ _ _ hn h2, by simp⟩
+  · obtain ⟨_, hs, _, h0, _, h1, h2⟩ := h; exact ⟨h0, h1, claims_of _ _ _ _ _ _ hn h2, by simp [hs]⟩
+  · exact absurd h (baseReject_ne _)
+  · exact absurd h (baseReject_ne _)
+  · obtain ⟨_, h0, _, h1, h2⟩ := h; exact ⟨h0, h1, claims_of _ _ _ _ _ _ hn h2, by simp⟩
+  · obtain ⟨_, hs, _, h0, _, h1, h2⟩ := h; exact ⟨h0, h1, claims_of _ _ _ _ _ _ hn h2, by simp [hs]⟩
+
+theorem oidcTok_ok (p : Prov) (c : Cr) (now : Int) (t : Tok) (u : Unit) (h : oidcTok p c now t = .ok u) :
+    c.sig = true ∧ (p.oidcIssuer = [] ∨ t.iss = p.oidcIssuer) ∧ Window now t ∧
+      (∃ a ∈ t.aud, a.raw = p.clientId) ∧ (t.azp = [] ∨ t.azp = p.clientId) ∧
+      c.domainOk = true ∧ c.groupOk = true := by
+  unfold oidcTok at h
+  simp only [bind_ok, need_ok] at h
+  obtain ⟨_, h0, _, h1, _, h2, _, h3, _, h4, _, h5, h6⟩ := h
+  refine ⟨h0, ?_, (validate_ok _ _ _ _ h3).2, ?_, ?_, h5, h6⟩
+  · simp at h1; rcases h1 with h1 | h1
+    · exact .inl h1
+    · exact .inr h1.symm
+  · simpa using h2
+  · simpa using h4
+
+theorem oidcOp_ok (p : Prov) (c : Cr) (now : Int) (op : Op) (t : Tok) (u : Unit)
+    (h : oidcOp p c now op t = .ok u) :
+    c.sig = true ∧ (p.oidcIssuer = [] ∨ t.iss = p.oidcIssuer) ∧ Window now t ∧
+      (∃ a ∈ t.aud, a.raw = p.clientId) ∧ (t.azp = [] ∨ t.azp = p.clientId) ∧
+      c.domainOk = true ∧ c.groupOk = true ∧
+      (op = .sign ∨ ((op = .revoke ∨ op = .sshRevoke) ∧ c.admin = true) ∨
+       (op = .sshSign ∧ p.sshEnabled = true ∧ t.sub ≠ [] ∧ (t.email = [] ∨ c.identOk = true))) := by
+  cases op <;> simp only [oidcOp, bind_ok, need_ok] at h
+  · obtain ⟨a, b, c', d, e, f, g⟩ := oidcTok_ok _ _ _ _ _ h
+    exact ⟨a, b, c', d, e, f, g, by simp⟩
+  · obtain ⟨_, hs, _, h0, _, h1, h2⟩ := h
+    obtain ⟨a, b, c', d, e, f, g⟩ := oidcTok_ok _ _ _ _ _ h0
+    refine ⟨a, b, c', d, e, f, g, .inr (.inr ⟨rfl, hs, ?_, ?_⟩)⟩
+    · intro hh; simp [hh] at h1
+    · simpa using h2
+  · exact absurd h (baseReject_ne _)
+  · exact absurd h (baseReject_ne _)
+  · obtain ⟨_, h0, h1⟩ := h
+    obtain ⟨a, b, c', d, e, f, g⟩ := oidcTok_ok _ _ _ _ _ h0
+    exact ⟨a, b, c', d, e, f, g, .inr (.inl ⟨.inl rfl, h1⟩)⟩
+  · obtain ⟨_, h0, h1⟩ := h
+    obtain ⟨a, b, c', d, e, f, g⟩ := oidcTok_ok _ _ _ _ _ h0
+    exact ⟨a, b, c', d, e, f, g, .inr (.inl ⟨.inr rfl, h1⟩)⟩
+
+theorem k8sTok_ok (p : Prov) (c : Cr) (now : Int) (t : Tok) (u : Unit) (hty : p.ty = .k8ssa)
+    (h : k8sTok p c now t = .ok u) : c.sig = true ∧ t.iss = k8sIssuer ∧ Window now t ∧ t.sub ≠ [] := by
+  unfold k8sTok at h
+  simp only [bind_ok, need_ok] at h
+  obtain ⟨_, h0, _, h1, h2⟩ := h
+  obtain ⟨hi, hw⟩ := validate_ok _ _ _ _ h1
+  refine ⟨h0, ?_, hw, ?_⟩
+  · simp only [Prov.expIssuer, hty] at hi
+    rcases hi with hi | hi
+    · simp [k8sIssuer, s] at hi
+    · exact hi
+  · intro hs; simp [hs] at h2
+
+theorem k8sOp_ok (p : Prov) (c : Cr) (now : Int) (op : Op) (t : Tok) (u : Unit) (hty : p.ty = .k8ssa)
+    (h : k8sOp p c now op t = .ok u) :
+    c.sig = true ∧ t.iss = k8sIssuer ∧ Window now t ∧ t.sub ≠ [] ∧
+      (op = .sign ∨ op = .revoke ∨ (op = .sshSign ∧ p.sshEnabled = true)) := by
+  cases op <;> simp only [k8sOp, bind_ok, need_ok] at h
+  · obtain ⟨a, b, c', d⟩ := k8sTok_ok _ _ _ _ _ hty h; exact ⟨a, b, c', d, by simp⟩
+  · obtain ⟨_, hs, h0⟩ := h
+    obtain ⟨a, b, c', d⟩ := k8sTok_ok _ _ _ _ _ hty h0; exact ⟨a, b, c', d, by simp [hs]⟩
+  · exact absurd h (baseReject_ne _)
+  · exact absurd h (baseReject_ne _)
+  · obtain ⟨a, b, c', d⟩ := k8sTok_ok _ _ _ _ _ hty h; exact ⟨a, b, c', d, by simp⟩
+  · exact absurd h (baseReject_ne _)
+
+theorem tokenlessOp_ok (ty : PType) (op : Op) (u : Unit) (h : tokenlessOp ty op = .ok u) :
+    op = .sign ∨ (ty = .acme ∧ op = .revoke) := by
+  cases ty <;> cases op <;> simp_all [tokenlessOp, baseReject]
+
+theorem provOp_ok (cfg : Config) (p : Prov) (c : Cr) (now : Int) (op : Op) (t : Tok) (u : Unit)
+    (h : provOp cfg p c now op t = .ok u) : Accepts cfg p c now op t := by
+  unfold provOp at h
+  unfold Accepts
+  split at h <;> rename_i hty <;> simp only [hty]
+  · exact jwkOp_ok _ _ _ _ _ _ _ hty h
+  · exact x5cOp_ok _ _ _ _ _ _ _ hty h
+  · exact sshpopOp_ok _ _ _ _ _ _ _ hty h
+  · exact oidcOp_ok _ _ _ _ _ _ h
+  · exact k8sOp_ok _ _ _ _ _ _ hty h
+  · exact nebulaOp_ok _ _ _ _ _ _ _ hty h
+  · rcases tokenlessOp_ok _ _ _ h with h | ⟨_, h⟩
+    · exact .inl h
+    · exact .inr h
+  · rcases tokenlessOp_ok _ _ _ h with h | ⟨h, _⟩
+    · exact h
+    · simp at h
+
+/-! ### lookup -/
+
+theorem findId_some (id : Str) (ps : List Prov) (k i : Nat) (p : Prov) (h : findId id ps k = some (i, p)) :
+    k ≤ i ∧ ps[i - k]? = some p ∧ p.tokenId = id := by
+  induction ps generalizing k with
+  | nil => simp [findId] at h
+  | cons q qs ih =>
+    unfold findId at h
+    split at h
+    · rename_i hq
+      simp only [Option.some.injEq, Prod.mk.injEq] at h
+      obtain ⟨rfl, rfl⟩ := h
+      simp at hq
+      simp [hq]
+    · obtain ⟨h1, h2, h3⟩ := ih _ h
+      refine ⟨by omega, ?_, h3⟩
+      have : i - k = (i - (k + 1)) + 1 := by omega
+      rw [this]
+      simpa using h2
+
+theorem byTokenId_some (cfg : Config) (id : Str) (i : Nat) (p : Prov) (h : byTokenId cfg id = some (i, p)) :
+    cfg.provs[i]? = some p ∧ p.tokenId = id := by
+  obtain ⟨_, h2, h3⟩ := findId_some _ _ _ _ _ h
+  exact ⟨by simpa using h2, h3⟩
+
+/-- the identifiers `LoadByToken` can look a provisioner up by: all read from the unverified token -/
+def candidates (t : Tok) : List Str :=
+  [t.fragment, t.iss ++ s ":" ++ t.kid, s "k8ssa/k8sSA-default", t.azp, t.tid] ++ (t.aud.take 1).map (·.raw)
+
+theorem orElse'_some {α : Type} (a : Option α) (b : Unit → Option α) (x : α) (h : orElse' a b = some x) :
+    a = some x ∨ b () = some x := by
+  unfold orElse' at h
+  split at h
+  · left; rename_i y; simp_all
+  · right; exact h
+
+/-- `LoadByToken` returns a configured provisioner whose token id is one of the candidates. -/
+theorem loadByToken_some (cfg : Config) (t : Tok) (i : Nat) (p : Prov) (h : loadByToken cfg t = some (i, p)) :
+    cfg.provs[i]? = some p ∧ p.tokenId ∈ candidates t := by
+  have key : ∀ id, id ∈ candidates t → byTokenId cfg id = some (i, p) → cfg.provs[i]? = some p ∧ p.tokenId ∈ candidates t := by
+    intro id hid hb
+    obtain ⟨h1, h2⟩ := byTokenId_some _ _ _ _ hb
+    exact ⟨h1, h2 ▸ hid⟩
+  unfold loadByToken at h
+  split at h
+  · split at h
+    · exact key _ (by simp [candidates]) h
+    · exact key _ (by simp [candidates]) h
+  · unfold loadByClaims at h
+    split at h
+    · simp at h
+    · split at h
+      · exact key _ (by simp [candidates]) h
+      · split at h
+        · simp at h
+        · rename_i a0 rest haud
+          rcases orElse'_some _ _ _ h with h | h
+          · split at h
+            · exact key _ (by simp [candidates]) h
+            · simp at h
+          · rcases orElse'_some _ _ _ h with h | h
+            · split at h
+              · rcases orElse'_some _ _ _ h with h | h
+                · split at h
+                  · exact key _ (by simp [candidates, haud]) h
+                  · simp at h
+                · exact key _ (by simp [candidates]) h
+              · simp at h
+            · exact key _ (by simp [candidates, haud]) h
+
+/-! ### the central theorem -/
+
+/-- **authorize_sound.** If `Authority.Authorize` accepts a token for `op` and answers with
+    provisioner `i`, then `i` is a configured provisioner that initialised, it is the one the
+    token's unverified claims name, the token was not issued before the CA started (unless that
+    check is off), SSH operations have an SSH CA behind them, and the token satisfies what that
+    provisioner's type requires (`Accepts`, spelled out per type above). For every configuration,
+    instant, operation and token. -/
+theorem authorize_sound (cfg : Config) (now : Int) (op : Op) (t : Tok) (i : Nat)
+    (h : authorize cfg now op t = .ok i) :
+    ∃ p, cfg.provs[i]? = some p ∧ p.init = true ∧ p.tokenId ∈ candidates t ∧ t.parsed = true ∧
+      (needsSSHCA op = true → cfg.sshCA = true) ∧
+      (cfg.disableIat = false → ∀ iat, t.iat = some iat → cfg.startTime ≤ iat) ∧
+      Accepts cfg p (t.crAt i) now op t := by
+  unfold authorize at h
+  simp only [bind_ok, need_ok] at h
+  obtain ⟨_, h0, _, h1, h2⟩ := h
+  split at h2
+  · simp at h2
+  · rename_i j p hl
+    simp only [bind_ok, need_ok, pure_ok] at h2
+    obtain ⟨_, h3, _, h4, _, h5, rfl⟩ := h2
+    obtain ⟨hm, hc⟩ := loadByToken_some _ _ _ _ hl
+    refine ⟨p, hm, h3, hc, h1, ?_, ?_, provOp_ok _ _ _ _ _ _ _ h5⟩
+    · intro hn; simpa [hn] using h0
+    · intro hd iat hi
+      simp only [hd, issuedBefore, hi, Bool.false_or, Bool.not_eq_true', decide_eq_false_iff_not] at h4
+      omega
+
+/-! ### "verifies under the key material of a configured provisioner" -/
+
+/-- the token verifies under the key material of provisioner `p` (crypto facts `c`), per type -/
+def Verifies (p : Prov) (c : Cr) : Prop :=
+  match p.ty with
+  | .jwk | .oidc | .k8ssa => c.sig = true
+  | .x5c => c.chain = true ∧ c.digSig = true ∧ c.sig = true
+  | .sshpop | .nebula => c.chain = true ∧ c.sig = true
+  | .acme | .scep => False
+
+/-- a CA with one DNS name, one JWK provisioner, one OIDC provisioner and one ACME provisioner -/
+def exHost : Host := ⟨s "ca", false, true, s "ca", s "ca"⟩
+def exJwk : Prov := ⟨.jwk, s "jwk", s "k1", [], [], s "jwk:k1", true, true, false, false⟩
+def exOidc : Prov := ⟨.oidc, s "oidc", [], s "client", s "https://idp", s "client", true, true, false, false⟩
+def exAcme : Prov := ⟨.acme, s "acme", [], [], [], s "acme/acme", true, false, false, false⟩
+def exCfg : Config := ⟨[exHost], [exJwk, exOidc, exAcme], true, false, 1000⟩
+
+def exTok : Tok :=
+  { parsed := true, kid := s "k1", iss := s "jwk", sub := s "host", aud := [⟨s "https://ca/1.0/sign", s "https://ca/1.0/sign"⟩],
+    exp := some 2300, nbf := some 1999, iat := some 2000, azp := [], tid := [], email := [], lbtOk := true,
+    fragment := [], fragEsc := [], hasSSH := false, sshTypeOk := true, pop := none,
+    cr := [⟨true, false, false, false, false, false, false⟩, Cr.none, Cr.none] }
+
+/-- a valid JWK sign token is accepted (the hypotheses of `authorize_sound` are satisfiable) -/
+example : authorize exCfg (2000 * ns) .sign exTok = .ok 0 := by decide
+
+/-- … and the same token is refused for revoke: its audience is the sign URL -/
+example : authorize exCfg (2000 * ns) .revoke exTok = .reject .audience := by decide
+
+/-- A token signed by nobody in particular (no crypto fact holds for any provisioner, no issuer,
+    no subject, no validity claims) whose only content is the audience
+    `https://ca/1.0/sign#acme/acme`. -/
+def forgedTok : Tok :=
+  { parsed := true, kid := [], iss := [], sub := [], aud := [⟨s "https://ca/1.0/sign#acme/acme", s "https://ca/1.0/sign#acme/acme"⟩],
+    exp := none, nbf := none, iat := none, azp := [], tid := [], email := [], lbtOk := true,
+    fragment := s "acme/acme", fragEsc := s "acme/acme", hasSSH := false, sshTypeOk := true, pop := none,
+    cr := [Cr.none, Cr.none, Cr.none] }
+
+/-- **Refutation (defect, CVE-2025-44005 class).** "Accepted ⇒ the token verifies under the key
+    material of the answering provisioner" is false for the code as it stands: with an ACME
+    provisioner configured, `forgedTok` is authorized for sign (and for revoke). -/
+theorem authorize_genuine_refuted :
+    ¬ ∀ (cfg : Config) (now : Int) (op : Op) (t : Tok) (i : Nat), authorize cfg now op t = .ok i →
+        ∃ p, cfg.provs[i]? = some p ∧ Verifies p (t.crAt i) := by
+  intro h
+  have hacc : authorize exCfg 0 .sign forgedTok = .ok 2 := by decide
+  obtain ⟨p, hp, hv⟩ := h _ _ _ _ _ hacc
+  have : p = exAcme := by
+    have : exCfg.provs[2]? = some exAcme := rfl
+    rw [this] at hp; exact (Option.some.inj hp).symm
+  subst this
+  exact hv
+
+example : authorize exCfg 0 .revoke forgedTok = .ok 2 := by decide
+
+/-- **authorize_genuine_partial.** With the exact extra hypothesis that no ACME / SCEP provisioner
+    is configured, an accepted token verifies under the key material of the configured,
+    initialised provisioner that answered. -/
+theorem authorize_genuine_partial (cfg : Config) (now : Int) (op : Op) (t : Tok) (i : Nat)
+    (hno : ∀ p ∈ cfg.provs, p.ty ≠ .acme ∧ p.ty ≠ .scep)
+    (h : authorize cfg now op t = .ok i) :
+    ∃ p, cfg.provs[i]? = some p ∧ p.init = true ∧ Verifies p (t.crAt i) := by
+  obtain ⟨p, hp, hi, _, _, _, _, ha⟩ := authorize_sound _ _ _ _ _ h
+  refine ⟨p, hp, hi, ?_⟩
+  have hmem : p ∈ cfg.provs := List.mem_of_getElem? hp
+  obtain ⟨h1, h2⟩ := hno p hmem
+  unfold Accepts at ha
+  unfold Verifies
+  cases hty : p.ty <;> simp only [hty] at ha h1 h2 ⊢
+  · exact ha.1
+  · exact ⟨ha.1, ha.2.1, ha.2.2.1⟩
+  · obtain ⟨_, _, a, b, _⟩ := ha; exact ⟨a, b⟩
+  · exact ha.1
+  · exact ha.1
+  · exact ⟨ha.1, ha.2.1⟩
+  · exact absurd rfl h1
+  · exact absurd rfl h2
+
+/-! ### non-empty subject -/
+
+def oidcTokNoSub : Tok :=
+  { parsed := true, kid := s "idp-key", iss := s "https://idp", sub := [], aud := [⟨s "client", s "client"⟩],
+    exp := some 2300, nbf := none, iat := some 2000, azp := [], tid := [], email := [], lbtOk := true,
+    fragment := [], fragEsc := [], hasSSH := false, sshTypeOk := true, pop := none,
+    cr := [Cr.none, ⟨true, false, false, false, true, true, true⟩, Cr.none] }
+
+/-- **Refutation.** "Accepted ⇒ non-empty subject" is false for the code as it stands: an OIDC token
+    that verifies, with no `sub`, is authorized for X.509 sign. -/
+theorem subject_refuted :
+    ¬ ∀ (cfg : Config) (now : Int) (op : Op) (t : Tok) (i : Nat), authorize cfg now op t = .ok i → t.sub ≠ [] := by
+  intro h
+  have hacc : authorize exCfg (2000 * ns) .sign oidcTokNoSub = .ok 1 := by decide
+  exact h _ _ _ _ _ hacc rfl
+
+/-- **subject_partial / mutation: empty subject.** A token without subject is accepted only by an
+    OIDC provisioner for X.509 sign or (admins) revoke, or by an ACME / SCEP provisioner; every
+    other provisioner type and operation refuses it. -/
+theorem subject_partial (cfg : Config) (now : Int) (op : Op) (t : Tok) (i : Nat)
+    (hs : t.sub = []) (h : authorize cfg now op t = .ok i) :
+    ∃ p, cfg.provs[i]? = some p ∧
+      ((p.ty = .oidc ∧ op ≠ .sshSign) ∨ p.ty = .acme ∨ p.ty = .scep) := by
+  obtain ⟨p, hp, _, _, _, _, _, ha⟩ := authorize_sound _ _ _ _ _ h
+  refine ⟨p, hp, ?_⟩
+  unfold Accepts at ha
+  cases hty : p.ty <;> simp only [hty] at ha ⊢
+  · exact absurd hs ha.2.1.2.2.2
+  · exact absurd hs ha.2.2.2.1.2.2.2
+  · obtain ⟨_, _, _, _, hc, _⟩ := ha; exact absurd hs hc.2.2.2
+  · left
+    refine ⟨trivial, ?_⟩
+    intro hop
+    rcases ha.2.2.2.2.2.2.2 with h1 | ⟨h1 | h1, _⟩ | ⟨_, _, h1, _⟩
+    · rw [hop] at h1; cases h1
+    · rw [hop] at h1; cases h1
+    · rw [hop] at h1; cases h1
+    · exact h1 hs
+  · exact absurd hs ha.2.2.2.1
+  · exact absurd hs ha.2.2.1.2.2.2
+  · simp
+  · simp
+
+theorem mutation_empty_subject (cfg : Config) (now : Int) (op : Op) (t : Tok)
+    (hno : ∀ p ∈ cfg.provs, p.ty ≠ .acme ∧ p.ty ≠ .scep ∧ p.ty ≠ .oidc)
+    (hs : t.sub = []) : ∀ i, authorize cfg now op t ≠ .ok i := by
+  intro i h
+  obtain ⟨p, hp, hc⟩ := subject_partial _ _ _ _ _ hs h
+  obtain ⟨h1, h2, h3⟩ := hno p (List.mem_of_getElem? hp)
+  rcases hc with ⟨hc, _⟩ | hc | hc
+  · exact h3 hc
+  · exact h1 hc
+  · exact h2 hc
+
+/-! ### one corollary per mutation class of the statement -/
+
+/-- the validity window holds for every accepted token unless an ACME / SCEP provisioner answered -/
+theorem window_of_accept (cfg : Config) (now : Int) (op : Op) (t : Tok) (i : Nat)
+    (h : authorize cfg now op t = .ok i) :
+    ∃ p, cfg.provs[i]? = some p ∧ (p.ty = .acme ∨ p.ty = .scep ∨ Window now t) := by
+  obtain ⟨p, hp, _, _, _, _, _, ha⟩ := authorize_sound _ _ _ _ _ h
+  refine ⟨p, hp, ?_⟩
+  unfold Accepts at ha
+  cases hty : p.ty <;> simp only [hty] at ha ⊢
+  · exact .inr (.inr ha.2.1.2.1)
+  · exact .inr (.inr ha.2.2.2.1.2.1)
+  · obtain ⟨_, _, _, _, hc, _⟩ := ha; exact .inr (.inr hc.2.1)
+  · exact .inr (.inr ha.2.2.1)
+  · exact .inr (.inr ha.2.2.1)
+  · exact .inr (.inr ha.2.2.1.2.1)
+  · simp
+  · simp
+
+/-- **expired**: `exp` more than a minute in the past ⇒ refused (no ACME / SCEP provisioner configured) -/
+theorem mutation_expired (cfg : Config) (now : Int) (op : Op) (t : Tok) (e : Int)
+    (hno : ∀ p ∈ cfg.provs, p.ty ≠ .acme ∧ p.ty ≠ .scep)
+    (he : t.exp = some e) (hlt : e * ns + leeway < now) : ∀ i, authorize cfg now op t ≠ .ok i := by
+  intro i h
+  obtain ⟨p, hp, hc⟩ := window_of_accept _ _ _ _ _ h
+  obtain ⟨h1, h2⟩ := hno p (List.mem_of_getElem? hp)
+  rcases hc with hc | hc | hc
+  · exact h1 hc
+  · exact h2 hc
+  · have := hc.2.1 e he; omega
+
+/-- **not yet valid**: `nbf` more than a minute ahead ⇒ refused -/
+theorem mutation_not_yet_valid (cfg : Config) (now : Int) (op : Op) (t : Tok) (n : Int)
+    (hno : ∀ p ∈ cfg.provs, p.ty ≠ .acme ∧ p.ty ≠ .scep)
+    (hn : t.nbf = some n) (hlt : now < n * ns - leeway) : ∀ i, authorize cfg now op t ≠ .ok i := by
+  intro i h
+  obtain ⟨p, hp, hc⟩ := window_of_accept _ _ _ _ _ h
+  obtain ⟨h1, h2⟩ := hno p (List.mem_of_getElem? hp)
+  rcases hc with hc | hc | hc
+  · exact h1 hc
+  · exact h2 hc
+  · have := hc.1 n hn; omega
+
+/-- **issued before the CA started** (check not switched off) ⇒ refused, whatever provisioner the
+    token names — this gate precedes every provisioner, ACME and SCEP included. -/
+theorem mutation_issued_before_start (cfg : Config) (now : Int) (op : Op) (t : Tok) (iat : Int)
+    (hd : cfg.disableIat = false) (hi : t.iat = some iat) (hlt : iat < cfg.startTime) :
+    ∀ i, authorize cfg now op t ≠ .ok i := by
+  intro i h
+  obtain ⟨_, _, _, _, _, _, hs, _⟩ := authorize_sound _ _ _ _ _ h
+  have := hs hd iat hi
+  omega
+
+/-- **removed provisioner**: if none of the identifiers the token can be looked up by is the token
+    id of a configured provisioner, the token is refused. -/
+theorem mutation_removed (cfg : Config) (now : Int) (op : Op) (t : Tok)
+    (hr : ∀ p ∈ cfg.provs, p.tokenId ∉ candidates t) : ∀ i, authorize cfg now op t ≠ .ok i := by
+  intro i h
+  obtain ⟨p, hp, _, hc, _⟩ := authorize_sound _ _ _ _ _ h
+  exact hr p (List.mem_of_getElem? hp) hc
+
+/-- **failed-to-initialise provisioner**: if the provisioner the token names did not initialise, refused. -/
+theorem mutation_uninitialised (cfg : Config) (now : Int) (op : Op) (t : Tok)
+    (hu : ∀ i p, loadByToken cfg t = some (i, p) → p.init = false) : ∀ i, authorize cfg now op t ≠ .ok i := by
+  intro i h
+  unfold authorize at h
+  simp only [bind_ok, need_ok] at h
+  obtain ⟨_, _, _, _, h2⟩ := h
+  split at h2
+  · simp at h2
+  · rename_i j p hl
+    simp only [bind_ok, need_ok] at h2
+    obtain ⟨_, h3, _⟩ := h2
+    rw [hu _ _ hl] at h3
+    cases h3
+
+/-- **other key / other algorithm / any bit of header, payload or signature altered**, as far as it
+    is a theorem here: if the token does not verify under the key material of the provisioner its
+    claims name, and that provisioner is not ACME / SCEP, it is refused. (That an altered bit makes
+    verification fail is go-jose's / crypto's guarantee: a premise, sampled by the harness.) -/
+theorem mutation_other_key (cfg : Config) (now : Int) (op : Op) (t : Tok)
+    (hk : ∀ i p, loadByToken cfg t = some (i, p) → p.ty ≠ .acme ∧ p.ty ≠ .scep ∧ ¬ Verifies p (t.crAt i)) :
+    ∀ i, authorize cfg now op t ≠ .ok i := by
+  intro i h
+  have h' := h
+  unfold authorize at h
+  simp only [bind_ok, need_ok] at h
+  obtain ⟨_, _, _, _, h2⟩ := h
+  split at h2
+  · simp at h2
+  · rename_i j p hl
+    simp only [bind_ok, need_ok, pure_ok] at h2
+    obtain ⟨_, _, _, _, _, h5, rfl⟩ := h2
+    obtain ⟨h1, h2', h3⟩ := hk _ _ hl
+    have ha := provOp_ok _ _ _ _ _ _ _ h5
+    apply h3
+    unfold Accepts at ha
+    unfold Verifies
+    cases hty : p.ty <;> simp only [hty] at ha h1 h2' ⊢
+    · exact ha.1
+    · exact ⟨ha.1, ha.2.1, ha.2.2.1⟩
+    · obtain ⟨_, _, a, b, _⟩ := ha; exact ⟨a, b⟩
+    · exact ha.1
+    · exact ha.1
+    · exact ⟨ha.1, ha.2.1⟩
+    · exact absurd rfl h1
+    · exact absurd rfl h2'
+
+/-- the provisioner types whose tokens are minted with a key or certificate registered at the CA
+    and addressed to one of the CA's URLs -/
+def UrlAddressed (ty : PType) : Prop := ty = .jwk ∨ ty = .x5c ∨ ty = .sshpop ∨ ty = .nebula
+
+/-- **other operation / other CA**: a JWK, X5C, SSHPOP or Nebula provisioner accepts a token for `op`
+    only if one of its audiences matches an element of the list for `op`, every element of which is
+    (by `audiences_per_op`) a URL of *this* CA for *that* kind of operation or the legacy constant. -/
+theorem mutation_other_operation (cfg : Config) (now : Int) (op : Op) (t : Tok) (i : Nat)
+    (h : authorize cfg now op t = .ok i) :
+    ∃ p, cfg.provs[i]? = some p ∧ (UrlAddressed p.ty →
+      ∃ a ∈ t.aud, ∃ b, ((b = .legacy ∧ (op = .sign ∨ op = .revoke)) ∨ ∃ op', Shares op op' ∧ IsUrlFor cfg.hosts op' b) ∧
+        ((b.render p.audFrag).1 = a.raw ∨ a.stripped = (b.render p.audFrag).2)) := by
+  obtain ⟨p, hp, _, _, _, _, _, ha⟩ := authorize_sound _ _ _ _ _ h
+  refine ⟨p, hp, ?_⟩
+  intro hu
+  have haud : AudOk cfg p op t := by
+    unfold Accepts at ha
+    unfold UrlAddressed at hu
+    cases hty : p.ty <;> simp only [hty] at ha hu
+    · exact ha.2.1.2.2.1
+    · exact ha.2.2.2.1.2.2.1
+    · obtain ⟨_, _, _, _, hc, _⟩ := ha; exact hc.2.2.1
+    · simp at hu
+    · simp at hu
+    · exact ha.2.2.1.2.2.1
+    · simp at hu
+    · simp at hu
+  obtain ⟨a, ha', b, hb, hm⟩ := haud
+  exact ⟨a, ha', b, audiences_per_op _ _ _ hb, hm⟩
+
+/-- consequence used as "mutation: other operation / other CA": if no audience of the token matches
+    any element of the provisioner's list for `op`, a URL-addressed provisioner does not accept it -/
+theorem mutation_other_audience (cfg : Config) (now : Int) (op : Op) (t : Tok)
+    (hk : ∀ i p, loadByToken cfg t = some (i, p) → UrlAddressed p.ty ∧ audMatch t.aud (provAuds cfg p op) = false) :
+    ∀ i, authorize cfg now op t ≠ .ok i := by
+  intro i h
+  unfold authorize at h
+  simp only [bind_ok, need_ok] at h
+  obtain ⟨_, _, _, _, h2⟩ := h
+  split at h2
+  · simp at h2
+  · rename_i j p hl
+    simp only [bind_ok, need_ok, pure_ok] at h2
+    obtain ⟨_, _, _, _, _, h5, rfl⟩ := h2
+    obtain ⟨hu, hm⟩ := hk _ _ hl
+    unfold provOp at h5
+    unfold UrlAddressed at hu
+    have key : ∀ u, claimsAudSub cfg p now op t ≠ .ok u := by
+      intro u hc
+      unfold claimsAudSub at hc
+      simp only [bind_ok, need_ok] at hc
+      obtain ⟨_, _, _, h2, _⟩ := hc
+      rw [hm] at h2; cases h2
+    cases hty : p.ty <;> simp only [hty] at h5 hu
+    · cases op <;> simp only [jwkOp, jwkTok, bind_ok, need_ok] at h5
+      · obtain ⟨_, _, h⟩ := h5; exact key _ h
+      · obtain ⟨_, _, _, ⟨_, _, h⟩, _⟩ := h5; exact key _ h
+      · exact baseReject_ne _ h5
+      · exact baseReject_ne _ h5
+      · obtain ⟨_, _, h⟩ := h5; exact key _ h
+      · obtain ⟨_, _, h⟩ := h5; exact key _ h
+    · cases op <;> simp only [x5cOp, x5cTok, bind_ok, need_ok] at h5
+      · obtain ⟨_, _, _, _, _, _, h⟩ := h5; exact key _ h
+      · obtain ⟨_, _, _, ⟨_, _, _, _, _, _, h⟩, _⟩ := h5; exact key _ h
+      · exact baseReject_ne _ h5
+      · exact baseReject_ne _ h5
+      · obtain ⟨_, _, _, _, _, _, h⟩ := h5; exact key _ h
+      · exact baseReject_ne _ h5
+    · obtain ⟨pc, _, _, _, hc, _⟩ := sshpopOp_ok _ _ _ _ _ _ _ hty h5
+      obtain ⟨a, ha, b, hb, hab⟩ := hc.2.2.1
+      have : audMatch t.aud (provAuds cfg p op) = true := by
+        unfold audMatch provAuds
+        simp only [Bool.and_eq_true, List.any_eq_true, Bool.or_eq_true, beq_iff_eq, Bool.not_eq_true',
+          List.isEmpty_eq_false_iff, ne_eq, List.map_eq_nil_iff, List.mem_map]
+        refine ⟨⟨?_, ?_⟩, _, ⟨b, hb, rfl⟩, a, ha, hab⟩
+        · intro he; rw [he] at hb; cases hb
+        · intro he; rw [he] at ha; cases ha
+      rw [hm] at this; cases this
+    · simp at hu
+    · simp at hu
+    · cases op <;> simp only [nebulaOp, nebulaTok, bind_ok, need_ok] at h5
+      · obtain ⟨_, _, _, _, h⟩ := h5; exact key _ h
+      · obtain ⟨_, _, _, _, _, _, h⟩ := h5; exact key _ h
+      · exact baseReject_ne _ h5
+      · exact baseReject_ne _ h5
+      · obtain ⟨_, _, _, _, h⟩ := h5; exact key _ h
+      · obtain ⟨_, _, _, _, _, _, h⟩ := h5; exact key _ h
+    · simp at hu
+    · simp at hu
+
+/-! ### nothing is signed, stored or revoked without a successful Authorize -/
+
+def Ev.isEff : Ev → Bool
+  | .eff _ => true
+  | _ => false
+
+def Ev.isUnknown : Ev → Bool
+  | .unknown _ => true
+  | _ => false
+
+/-- on one control-flow path: every effect call has a successful `Authorize` before it and no failed
+    one; nothing unrecognised occurs -/
+def dominated (t : List Ev) : Bool :=
+  !t.any Ev.isUnknown &&
+  (List.range t.length).all fun k =>
+    match t[k]? with
+    | some e => !e.isEff || ((t.take k).contains .authOk && !(t.take k).contains .authErr)
+    | none => true
+
+/-- a request that presents a token (every path of the handlers except the mTLS branch of `Revoke`) -/
+def tokenPath (t : List Ev) : Bool := !t.contains .noToken
+
+/-- **nothing_happens.** In each of the six handlers, on every control-flow path of a token request,
+    each call that signs, renews, rekeys or revokes is preceded by an `Authorize` that returned no
+    error, and no such call follows an `Authorize` that returned one (the error branch returns). -/
+theorem nothing_happens :
+    ∀ h ∈ handlerPaths, ∀ t ∈ h.2, tokenPath t = true → dominated t = true := by decide
+
+/-- the table is not vacuous: every handler has a token path that reaches an effect -/
+theorem handlers_reach_effects :
+    ∀ h ∈ handlerPaths, ∃ t ∈ h.2, tokenPath t = true ∧ t.any Ev.isEff = true := by decide
+
+/-- all six handlers are in the table -/
+theorem handlers_listed :
+    handlerPaths.map (·.1) = ["Sign", "SSHSign", "SSHRenew", "SSHRekey", "SSHRevoke", "Revoke"] := by decide
+
+/-- `dominated` does reject a handler that signs before authorizing / after a failed authorization -/
+example : dominated [.eff "SignWithContext", .auth, .authOk] = false := by decide
+example : dominated [.auth, .authErr, .eff "SignWithContext", .ret] = false := by decide
+
 end Verif.Token
